@@ -68,7 +68,15 @@ ViewBad(name, path, dates) ==
 \* known deviation: the references that place an entry in a list are only signature-checked, so an entry signed by
 \* an admin for the users list can be placed in the admin list by a reference anyone signs
 \* (once that happened the receiver keeps the bogus admin, so the honest candidate that follows cannot give the honest decisions)
+\* known deviation: a room never seen before is only checked for self-consistency, so an entry authorises itself
+\* (guard: first import of the room, and the receiver ends with exactly the honest room plus that entry)
+SelfAuthorised(name, dates) ==
+    /\ snap = NoRoom /\ Ev.kind \in {"self_admin", "self_right", "self_user", "add_user", "self_uadmin"}
+    /\ LET path == IF name = "stored" THEN Ev.out.stored ELSE Ev.out.live
+       IN "err" \notin DOMAIN path /\ Yes(path) = Expected(AddEntry(Base(room), ThisEntry), dates)
 Attribute(o) == IF o[3] = "user_to_admin" /\ o[2] = "decisions-not-allowed" THEN "PlacementAuthorUnchecked"
+                ELSE IF o[2] = "decisions-not-allowed" /\ SelfAuthorised(o[1], ToSet(Ev.dates)) THEN "NewRoomAcceptsSelfAuthorisedEntries"
+                ELSE IF o[3] = "honest" /\ o[2] = "decisions-not-allowed" /\ "NewRoomAcceptsSelfAuthorisedEntries" \in devs THEN "NewRoomAcceptsSelfAuthorisedEntries"
                 ELSE IF o[3] = "honest" /\ o[2] = "decisions-not-allowed" /\ "PlacementAuthorUnchecked" \in devs THEN "PlacementAuthorUnchecked"
                 ELSE "none"
 Step == /\ l <= Len(Rec) /\ Ev.ev \notin {"begin", "end"} /\ l' = l + 1
